@@ -516,6 +516,262 @@ fn dirs_and_files(out: &mut Out, rt: &tokio::runtime::Runtime, dir: &Path) {
 	}
 }
 
+// ---------------------------------------------------------------- typed getters with values (`C18 get`)
+fn show_f(v: f64) -> String {
+	if v.fract() == 0.0 && v.abs() < 16777216.0 {
+		format!("{}", v as i64)
+	} else {
+		"x".into()
+	}
+}
+
+/// `C18 get <type> <hex(text)>`: the typed getter of `VPLNode` on parameter `k` of the single operation of the text
+pub(crate) fn emit_get(out: &mut Out, ty: &str, text: &str, expected: Option<String>) {
+	use versatiles_pipeline::VPLNode;
+	fn g<T>(r: anyhow::Result<Option<T>>, sh: impl Fn(T) -> String) -> String {
+		match r {
+			Ok(Some(v)) => format!("val {}", sh(v)),
+			Ok(None) => "none".into(),
+			Err(_) => "err".into(),
+		}
+	}
+	let real = match catch(|| {
+		let n: VPLNode = match parse_vpl(text) {
+			Ok(mut p) if p.len() == 1 => p.pop().unwrap(),
+			_ => return "bad-text".to_string(),
+		};
+		match ty {
+			"string" => g(n.get_property_string("k"), |v| hs(&v)),
+			"string_req" => g(n.get_property_string_req("k").map(Some), |v| hs(&v)),
+			"bool" => g(n.get_property_bool_req("k").map(Some), |v| v.to_string()),
+			"u8" => g(n.get_property_number::<u8>("k"), |v| v.to_string()),
+			"u8_req" => g(n.get_property_number_req::<u8>("k").map(Some), |v| v.to_string()),
+			"u32" => g(n.get_property_number::<u32>("k"), |v| v.to_string()),
+			"f32" => g(n.get_property_number::<f32>("k"), |v| show_f(v as f64)),
+			"array4" => g(n.get_property_number_array4::<f64>("k"), |v| v.iter().map(|x| show_f(*x)).collect::<Vec<_>>().join(",")),
+			"array4_req" => g(n.get_property_number_array4_req::<f64>("k").map(Some), |v| v.iter().map(|x| show_f(*x)).collect::<Vec<_>>().join(",")),
+			_ => "bad-type".into(),
+		}
+	}) {
+		Ok(s) => s,
+		Err(_) => "panic".into(),
+	};
+	let case = format!("C18 get {ty} {}", hs(text));
+	out.case(&case, &real, true);
+	out.count(&format!("get_{ty}_{}", real.split(' ').next().unwrap_or("")));
+	match expected {
+		Some(e) if e != real => out.oracle(
+			false,
+			&format!("C18 typed value: the {ty} parameter of {:?} decodes to {real}, the text says {e}", trunc(text, 120)),
+			json!({"kind": "typed-value", "type": ty, "impl": real.split(' ').next().unwrap_or("")}),
+			json!({"case": case, "text": text, "expected": e}),
+		),
+		_ => out.oracle(true, "", json!(null), json!(null)),
+	}
+}
+
+fn typed_values(out: &mut Out) {
+	let node = |v: &str| format!("a k={}", qv(v));
+	// integers: every border of the type; the expectation comes from the standard library's parser of that type
+	let ints = [
+		"0", "1", "9", "10", "99", "100", "127", "128", "254", "255", "256", "257", "999", "65535", "65536", "4294967294", "4294967295", "4294967296", "4294967297", "99999999999999999999",
+		"18446744073709551615", "18446744073709551616", "+0", "+255", "+256", "+4294967295", "+4294967296", "-0", "-1", "-255", "00", "0255", "0256", "00004294967295", "00004294967296", "", " 1", "1 ",
+		"1.0", "1e0", "0x1", "1_0", "٣", "+", "-", "++1", "+-1", "1+",
+	];
+	for v in ints {
+		emit_get(out, "u8", &node(v), Some(v.parse::<u8>().map_or("err".into(), |x| format!("val {x}"))));
+		emit_get(out, "u8_req", &node(v), Some(v.parse::<u8>().map_or("err".into(), |x| format!("val {x}"))));
+		emit_get(out, "u32", &node(v), Some(v.parse::<u32>().map_or("err".into(), |x| format!("val {x}"))));
+	}
+	// floats: forms, whole numbers up to 2^24 compared by value, f32 overflow; expectation from the standard library
+	let floats = [
+		"0", "-0", "1", "-1", "1.0", "1.", ".5", "0.5", "5e-1", "1e0", "1e1", "1E1", "1e+1", "0.1e1", "10e-1", "180", "16777215", "16777216", "-16777215", "3.4e38", "3.5e38", "-3.5e38", "1e39", "1e400",
+		"inf", "-inf", "+inf", "infinity", "Infinity", "INF", "nan", "NaN", "-nan", "+1", "+.5", "", ".", "e1", "1e", "1e+", "1.2.3", "0x10", "1_0", " 1", "1 ", "1,5", "--1", "+-1", "١",
+	];
+	for v in floats {
+		let e32 = v.parse::<f32>().map_or("err".into(), |x| format!("val {}", show_f(x as f64)));
+		emit_get(out, "f32", &node(v), Some(e32));
+		for i in 0..4 {
+			let mut a = ["1", "2", "3", "4"];
+			a[i] = v;
+			let ok: Vec<Option<f64>> = a.iter().map(|x| x.parse::<f64>().ok()).collect();
+			let e = if ok.iter().all(|x| x.is_some()) { format!("val {}", ok.iter().map(|x| show_f(x.unwrap())).collect::<Vec<_>>().join(",")) } else { "err".into() };
+			let t = format!("a k=[{}]", a.iter().map(|x| qv(x)).collect::<Vec<_>>().join(","));
+			emit_get(out, "array4", &t, Some(e.clone()));
+			emit_get(out, "array4_req", &t, Some(e));
+		}
+	}
+	// booleans: the documented words (trimmed, any case); everything else is an error; absent is false
+	for w in ["1", "true", "yes", "ok", "0", "false", "no", "TRUE", "False", " yes ", "	no
+", "on", "off", "2", "", "t", "truee", "nope", "10", "01", "tru e"] {
+		let core = w.trim().to_lowercase();
+		let e = if ["1", "true", "yes", "ok"].contains(&core.as_str()) { "val true" } else if ["0", "false", "no"].contains(&core.as_str()) { "val false" } else { "err" };
+		emit_get(out, "bool", &node(w), Some(e.into()));
+	}
+	// strings: every text comes back unchanged
+	let long = "xyz ".repeat(300);
+	for v in ["", "x", " ", "a b", "\"", "\\", "\\\"", "\n", "\t", "line\nbreak", "[1,2]", "k=v", "é日本🗺", "\u{0}", long.as_str(), "true", "255"] {
+		emit_get(out, "string", &node(v), Some(format!("val {}", hs(v))));
+		emit_get(out, "string_req", &node(v), Some(format!("val {}", hs(v))));
+	}
+	// presence and arity for every getter: absent, one-element list, two values, repeated key, empty list
+	for ty in ["string", "string_req", "bool", "u8", "u8_req", "u32", "f32", "array4", "array4_req"] {
+		let arr = ty.starts_with("array4");
+		let required = ty.ends_with("_req");
+		let one = if ty == "bool" { "val true" } else if ty.starts_with("string") { "val 31" } else { "val 1" };
+		emit_get(out, ty, "a", Some(if ty == "bool" { "val false".into() } else if required { "err".into() } else { "none".into() }));
+		emit_get(out, ty, "a j=1", Some(if ty == "bool" { "val false".into() } else if required { "err".into() } else { "none".into() }));
+		emit_get(out, ty, "a k=[1]", Some(if arr { "err".into() } else { one.into() }));
+		emit_get(out, ty, "a k=[1,1]", Some("err".into()));
+		emit_get(out, ty, "a k=1 k=1", Some("err".into()));
+		emit_get(out, ty, "a k=[]", Some("err".into()));
+		emit_get(out, ty, "a k=[1,2,3,4]", Some(if arr { "val 1,2,3,4".into() } else { "err".into() }));
+		emit_get(out, ty, "a k=[1,2] k=[3,4]", Some(if arr { "val 1,2,3,4".into() } else { "err".into() }));
+		emit_get(out, ty, "a k=1 k=2 k=3 k=4", Some(if arr { "val 1,2,3,4".into() } else { "err".into() }));
+		emit_get(out, ty, "a k=[1,2,3,4,5]", Some("err".into()));
+		emit_get(out, ty, "a k=[1,2,3]", Some("err".into()));
+	}
+}
+
+// ---------------------------------------------------------------- counter confusion: sequential ≠ nested brackets
+fn sequential_brackets(out: &mut Out, args: &Args) {
+	let mut ns = vec![1usize, 63, 64, 65, 200, 2000];
+	if args.thorough() {
+		ns.push(20000);
+	}
+	for n in ns {
+		let sib = |x: &str| vec![x; n].join(",");
+		for t in [
+			format!("a{}", " k=[1]".repeat(n)),                 // many list-valued parameters
+			format!("a{}", " k=[]".repeat(n)),                  // many empty lists
+			format!("a{}", " k=[ \"]\" , \"[\" ]".repeat(n)),       // lists of quoted brackets
+			vec!["a[]"; n].join("|"),                          // open-close at depth 1, n times
+			vec!["a [ ]"; n].join(" | "),
+			format!("a [{}]", sib("b[]")),                      // open-close at depth 2 (siblings in one list)
+			format!("a [{}]", sib("b [c]")),
+			format!("a [{}]", sib("b k=[1] [c l=[2]]")),        // depth 3 everywhere, never more
+			format!("a [{}]", sib("b")),                        // many siblings, one pair
+			format!("a q=\"{}\" k=[1]", "[".repeat(n)),         // brackets inside quotes do not count
+			format!("a q=\"{}\" [b]", "]".repeat(n)),
+			format!("a q=\"\\\"{}\" [b [c]]", "[".repeat(n)),     // … also behind an escaped quote
+			format!("a{} [b]", " q=\"[\"".repeat(n)),           // many quoted openers in sequence
+			format!("a{} [b]", " q=\"[\\\\\"".repeat(n)),         // each ending in an escaped backslash
+		] {
+			parse_case(out, &t, "sequential");
+		}
+	}
+}
+
+// ---------------------------------------------------------------- class 11: fallbacks
+fn fallbacks(out: &mut Out, rt: &tokio::runtime::Runtime, dir: &Path) {
+	// parse_value tries quoted, then bare, then list: a broken first form must not be rescued by a later one
+	for t in [
+		"a k=\"x", "a k=\"x\\q\"", "a k=\"x\\", "a k=x\"y\"", "a k=\"x\"y", "a k=\"x\"[1]", "a k=x[1", "a k=[1", "a k=[\"1]", "a k=[1\"]", "a k=[x y]", "a k=[\"x\" \"y\"]", "a k=[\"x\"y]", "a k=[x\"y\"]",
+		"a k=\"\"x", "a k=\"\"\"\"", "a k=[\"\"\"\"]", "a k=", "a k= |b", "a k=,", "a k=]", "a k=[]]", "a k=[[]]", "a k=\\", "a k=\\n", "a k=n", "a k=\"\\n\"", "a k=\"n\"",
+		// the optional source list: an opened list is never silently dropped
+		"a [", "a [b", "a [b,", "a [b|", "a [b] ]", "a []", "a [ ] |b", "a [,]", "a [b c]", "a [b=c]", "a [ b k=1 [", "a k=1 [b] l=2",
+		// the optional parameter list: a word that is not a parameter is never skipped
+		"a b", "a b c=1", "a k=1 b", "a k=1 b [c]", "a 1", "a =1", "a k=1 =2",
+	] {
+		parse_case(out, t, "fallback-parse");
+	}
+	// scalar ↔ list coercion in the typed layer (one-element list = scalar; four scalars under one key = array)
+	for (t, e) in [
+		("from_debug format=[pbf]", "ok"),
+		("from_debug format=[pbf,png]", "err"),
+		("from_debug format=[]", "err"),
+		("from_debug format=pbf fast=[true]", "ok"),
+		("from_debug format=pbf fast=[]", "err"),
+		("from_debug format=pbf fast=[true,true]", "err"),
+		("from_debug format=pbf | filter_zoom min=[3] max=[\"5\"]", "ok"),
+		("from_debug format=pbf | filter_bbox bbox=1 bbox=2 bbox=3 bbox=4", "ok"),
+		("from_debug format=pbf | filter_bbox bbox=[1] bbox=[2,3] bbox=4", "ok"),
+		("from_debug format=pbf | filter_bbox bbox=1", "err"),
+		("from_debug format=pbf | filter_bbox bbox=[[1,2,3,4]]", "err"),
+		("from_debug format=pbf | filter_bbox bbox=\"[1,2,3,4]\"", "err"),
+		("from_debug format=pbf | filter_bbox bbox=\"1,2,3,4\"", "err"),
+		("from_container filename=[a,b]", "err"),
+		("from_container filename=[a]", "ok"),
+		("from_container filename=\"\"", "ok"),
+		("from_debug format=pbf | vectortiles_update_properties data_source_path=data.csv layer_name=\"\" id_field_tiles=\"\" id_field_data=id", "ok"),
+		("from_debug format=pbf | vectortiles_update_properties data_source_path=\"\" layer_name=mock id_field_tiles=x id_field_data=id", "err"),
+		("from_debug format=pbf | vectortiles_update_properties data_source_path=data.csv layer_name=mock id_field_tiles=x id_field_data=\"\"", "err"),
+	] {
+		emit_build(out, rt, dir, t, Some(e), "fallback-coercion");
+	}
+	// every boolean parameter of every operation through the whole word table (not only from_debug fast)
+	for k in ["replace_properties", "remove_non_matching", "include_id"] {
+		for w in ["1", "true", "yes", "ok", "0", "false", "no", "TRUE", " no ", "on", "off", "2", "", "banana"] {
+			let core = w.trim().to_lowercase();
+			let ok = ["1", "true", "yes", "ok", "0", "false", "no"].contains(&core.as_str());
+			let t = format!("from_debug format=pbf | vectortiles_update_properties data_source_path=data.csv layer_name=mock id_field_tiles=x id_field_data=id {k}={}", qv(w));
+			emit_build(out, rt, dir, &t, Some(if ok { "ok" } else { "err" }), "limit-bool");
+		}
+	}
+	// defaults of optional parameters: leaving a parameter out is the same operation as writing its default,
+	// and a different one from writing the opposite
+	let f = factory(dir);
+	let show = |t: &str| -> Result<String, ()> {
+		catch(|| rt.block_on(async { f.operation_from_vpl(t).await.map(|o| format!("{:?} | {:?}", o.get_parameters(), debug_fields(&format!("{o:?}")))).map_err(|_| ()) })).unwrap_or(Err(()))
+	};
+	for (absent, default, other) in [
+		("from_debug format=pbf", "from_debug format=pbf fast=false", Some("from_debug format=pbf fast=true")),
+		("from_debug format=pbf", "from_debug format=pbf []", None),
+		("from_debug format=pbf | filter_zoom", "from_debug format=pbf", None),
+		("from_debug format=pbf | filter_zoom", "from_debug format=pbf | filter_zoom min=0 max=255", Some("from_debug format=pbf | filter_zoom min=1")),
+		("from_debug format=pbf | filter_zoom max=5", "from_debug format=pbf | filter_zoom min=0 max=5", Some("from_debug format=pbf | filter_zoom min=5")),
+		(
+			"from_debug format=pbf | vectortiles_update_properties data_source_path=data.csv layer_name=mock id_field_tiles=x id_field_data=id",
+			"from_debug format=pbf | vectortiles_update_properties data_source_path=data.csv layer_name=mock id_field_tiles=x id_field_data=id replace_properties=false remove_non_matching=0 include_id=no",
+			Some("from_debug format=pbf | vectortiles_update_properties data_source_path=data.csv layer_name=mock id_field_tiles=x id_field_data=id replace_properties=true"),
+		),
+	] {
+		let (a, d) = (show(absent), show(default));
+		let o = other.map(|t| show(t));
+		out.eval(&format!("C18 default {}", hs(absent)), true);
+		out.count("default_cases");
+		let ok = a.is_ok() && a == d && o.map_or(true, |o| o.is_ok() && o != a);
+		out.oracle(
+			ok,
+			&format!("C18 default: {absent:?} must be the same operation as {default:?}{}", other.map_or(String::new(), |t| format!(" and differ from {t:?}"))),
+			json!({"kind": "default-value"}),
+			json!({"case": format!("C18 build {}", hs(absent)), "with_default": default}),
+		);
+	}
+	// the data file is looked up under the directory of the VPL file – never in the current directory instead
+	let t = "from_debug format=pbf | vectortiles_update_properties data_source_path=data.csv layer_name=mock id_field_tiles=x id_field_data=id";
+	let cwd_dir = dir.join("x_cwd");
+	let empty_dir = dir.join("x_nofile");
+	std::fs::create_dir_all(&cwd_dir).unwrap();
+	std::fs::create_dir_all(&empty_dir).unwrap();
+	std::fs::write(cwd_dir.join("data.csv"), "id,name\n1,a\n").unwrap();
+	if let Ok(old) = std::env::current_dir() {
+		if std::env::set_current_dir(&cwd_dir).is_ok() {
+			let abs_empty = std::fs::canonicalize(old.join(&empty_dir)).unwrap_or(empty_dir.clone());
+			let r1 = real_build(rt, &abs_empty, t); // file only in the current directory: must not be found
+			let r2 = real_build(rt, Path::new(""), t); // empty base directory = current directory: found
+			let r3 = real_build(rt, Path::new("."), t);
+			std::env::set_current_dir(&old).unwrap();
+			out.eval("C18 cwd-fallback", true);
+			out.count("cwd_fallback");
+			out.oracle(
+				r1 == "err" && r2 == "ok" && r3 == "ok",
+				&format!("C18 fallback: data file present only in the current directory: base dir without the file gives {r1} (must be err), empty base dir {r2}, '.' {r3} (must be ok)"),
+				json!({"kind": "cwd-fallback", "r1": r1}),
+				json!({"case": format!("C18 build {}", hs(t))}),
+			);
+		}
+	}
+}
+
+/// scalar fields printed by the Debug output of an operation that carry decoded parameters
+fn debug_fields(d: &str) -> Vec<String> {
+	["fast_compression: ", "replace_properties: ", "remove_non_matching: ", "include_id: "]
+		.iter()
+		.flat_map(|k| d.match_indices(k).map(|(i, _)| d[i..].chars().take_while(|c| *c != ',' && *c != '}').collect::<String>()).collect::<Vec<_>>())
+		.collect()
+}
+
 pub fn run_extra(out: &mut Out, rt: &tokio::runtime::Runtime, dir: &Path, args: &Args, sample_texts: &[String]) {
 	limits(out, rt, dir, args);
 	option_interplay(out, rt, dir);
@@ -523,5 +779,8 @@ pub fn run_extra(out: &mut Out, rt: &tokio::runtime::Runtime, dir: &Path, args: 
 	two_paths(out, rt, dir);
 	same_twice(out, rt, dir, sample_texts);
 	dirs_and_files(out, rt, dir);
-	out.notes.push("CHECKLIST classes: 1 limits (c18x::limits, nesting 63..66 in c18), 2 callback/CSV faults (dirs_and_files), 3 CSV payload classes (never a panic), 4 option_interplay (pairwise states per operation), 5 same_twice + `C18 path` base directories, 6 order: `C18 split`/`C18 chain`, 9 freedoms (every piece at every position), 10 docs table vs model vs builds, operation_from_vpl vs parse_vpl+build_pipeline; 7 (HTTP) and 8 (tile coordinates) do not occur in VPL texts".into());
+	typed_values(out);
+	sequential_brackets(out, args);
+	fallbacks(out, rt, dir);
+	out.notes.push("CHECKLIST classes: 1 limits (c18x::limits, nesting 63..66 in c18), 2 callback/CSV faults (dirs_and_files), 3 CSV payload classes (never a panic), 4 option_interplay (pairwise states per operation), 5 same_twice + `C18 path` base directories, 6 order: `C18 split`/`C18 chain`, 9 freedoms (every piece at every position), 10 docs table vs model vs builds, operation_from_vpl vs parse_vpl+build_pipeline; 1b counter confusion: sequential_brackets; 11 fallbacks (parse_value alternatives, optional lists, scalar/list coercion, defaults, current-directory); typed values: `C18 get`; 7 (HTTP) and 8 (tile coordinates) do not occur in VPL texts".into());
 }
